@@ -675,6 +675,10 @@ def id_programs(n, tier):
     # stability: a thread asks again while a client holds a locked (strong) reference to its heartbeat
     out.append('P id%d_pinned cap=%d hash=0,0 | ID HB:1 BAR:1:2 BAR:2:2 ID BAR:3:2 BAR:4:2 EXP:1 ID | '
                'BAR:1:2 HBL:1 BAR:2:2 %sBAR:3:2 HBU:1 BAR:4:2 EXP:1%s' % (n, n, 'ID ' if n > 2 else '', final))
+    if n <= 2:
+        # more threads than IDs, every holder waits for all of them: the run stops with the late comer still asking - it must keep
+        # asking (a bounded probe loop that gives up and takes a slot it never reserved shows up as a second owner)
+        out.append('P id%d_over cap=%d hash=%s | %s' % (n, n, ','.join(['0'] * (n + 1)), ' | '.join('ID BAR:1:%d ID' % (n + 1) for _ in range(n + 1))))
     if n == 1:
         # a client pins the heartbeat of a thread beyond its exit, the ID is reused, the pin is dropped while the new owner runs,
         # a further thread asks: it must wait for the owner to exit
@@ -875,6 +879,8 @@ def epoch_programs(tier, which, seed=0):
                  ep_prog('ep_mono_c', 3, ['G CUR GR CUR G GR', 'G D', 'F F F || F F || CUR MIN'])]
         plan.append((3, progs, dict(pb=2 if q else 3, max_exec=5000 if q else 60000)))
         plan.append((3, [ep_prog('ep_cross_a', 3, ['CUR G CUR D MIN', 'G D', 'FQ:254 F F F'])], dict(pb=1, max_exec=60 if q else 400)))
+        # many quiescent forwards (every one is observed: min = cur - 1), far enough for retired list nodes to be replaced several times
+        plan.append((3, [ep_prog('ep_long_quiet', 3, ['G D', 'F FQ:%d F F' % (1100 if q else 2600)])], dict(pb=0, max_exec=1)))
         # guard objects handed from one thread to another: overwriting a live guard releases its pin, the handed-over pin
         # stays until that guard is destroyed; once everything is destroyed (threads still alive) a forward is quiescent
         progs = [ep_prog('ep_hand_a', 3, ['G GIVE:1 BAR:8:3 BAR:9:3', 'G TAKE:1 CUR D BAR:8:3 BAR:9:3', 'F BAR:8:3 F F BAR:9:3']),
@@ -1094,6 +1100,11 @@ def check_c20(prop, tier, seed):
     q = tier == 'quick'
     plan = [(4, seq_epoch_programs(16 if q else 120, seed * 7 + 1), dict(pb=0, max_exec=2)),
             (3, seq_epoch_programs(8 if q else 60, seed * 7 + 2, workers=2, steps=20), dict(pb=0, max_exec=2))]
+    plan.append((3, [ep_prog('ep_seq_two_nodes', 3, ['TURN:1 G NEXT TURN:5 D NEXT', 'TURN:3 GL NEXT TURN:6 RL D NEXT',
+                                                       'TURN:0 FQ:340 F NEXT TURN:2 FQ:200 F NEXT TURN:4 FQ:300 F NEXT TURN:7 F F FQ:300 F NEXT']),
+                     ep_prog('ep_seq_boundary', 3, ['TURN:1 G NEXT TURN:3 D NEXT', 'TURN:5 G NEXT TURN:7 D NEXT',
+                                                      'TURN:0 FQ:300 F NEXT TURN:2 FQ:466 F NEXT TURN:4 F F NEXT TURN:6 FQ:250 F F NEXT TURN:8 F FQ:520 F NEXT'])],
+                 dict(pb=0, max_exec=2)))
     res = thread_check(prop, tier, seed, plan, epoch_history, 'EpochAbsTrace.tla', epoch_cfg(['CkSeq', 'CkMono'], prop),
                        epoch_describe, statuses=('ok', 'stuck'))
     res['assumptions'] = EPOCH_ASSUME + ['sequential histories: a TURN/NEXT hand-shake in the harness lets exactly one thread run at a '
